@@ -3,6 +3,8 @@ import Firebolt.Properties.ExecFlow
 import Firebolt.Properties.ExecNet
 import Firebolt.Generated.Source
 import Firebolt.Expected.Source
+import Firebolt.Generated.Closure
+import Firebolt.Expected.Closure
 /-!
 # C16 — Per-node metrics account for every event exactly once
 Denotational part; the counter invariant under every interleaving is in `Properties/Exec*.lean`.
@@ -87,5 +89,14 @@ theorem tree_counters_isolated_any_step (N N' : Net) (p : Path) (a : Act) (hg : 
     ((N'.st r).received, (N'.st r).processed, (N'.st r).filtered, (N'.st r).failed, (N'.st r).discarded) =
     ((N.st r).received, (N.st r).processed, (N.st r).filtered, (N.st r).failed, (N.st r).discarded) :=
   tree_counters_isolated N N' p a hg r hr
+
+/-! ### one collector set per process: Init is once-only, every increment goes through the singleton -/
+theorem source_metricsInit : GeneratedSrc.metricsInit = ExpectedSrc.metricsInit := by rfl
+theorem source_metricsGet : GeneratedSrc.metricsGet = ExpectedSrc.metricsGet := by rfl
+theorem source_metricsNode : GeneratedSrc.metricsNode = ExpectedSrc.metricsNode := by rfl
+
+/-! ### influence closure: the pinned functions, and every function of the repository that writes a struct field or package
+variable they read, are unchanged (digests regenerated from /repo on every run; a difference names the functions) -/
+theorem closure_unchanged : GeneratedClo.C16 = ExpectedClo.C16 := by rfl
 
 end Firebolt.C16
